@@ -517,3 +517,91 @@ def touch_models(draw):
                         attrs=a))
   info = dict(base_xml=xml, sensors=sensors, state_mode='settle', labels=['touch-family'])
   return mg.GenModel(build_xml(xml, sensors), info)
+
+
+# --------------------------------------------------------------------------- tendon-actuator-force family
+
+@st.composite
+def tendonact_models(draw):
+  """A 3-link arm with 2-3 tendons and a mix of tendon / joint / site / body / slider-crank actuators whose target ids
+  coincide numerically with the tendon ids (tendon 0 <-> joint 0, site 0, ...), and tendonactuatorfrc sensors on every
+  tendon (plus jointactuatorfrc / actuatorfrc sensors), in random order.  Actuation is always enabled and gains are
+  non-trivial, so every actuator produces a force when ctrl != 0 (the check's random state sets ctrl in [-2, 2])."""
+  jt = [draw(st.sampled_from(['hinge', 'hinge', 'slide'])) for _ in range(3)]
+  xml = '<mujoco><option timestep="0.002" gravity="0 0 %s"/><worldbody>' % mg.fmt(draw(st.sampled_from([0.0, -9.81])))
+  depth = 0
+  for k in range(3):
+    ax = [draw(st.integers(-2, 2)) for _ in range(3)]
+    if not any(ax):
+      ax = [0, 1, 0]
+    xml += ('<body name="b%d" pos="%s"><joint name="j%d" type="%s" axis="%s" damping="%s"/>'
+            '<geom name="g%d" type="capsule" fromto="0 0 0 .2 0 0" size=".03" contype="0" conaffinity="0" mass="%s"/>'
+            '<site name="s%d" pos="%s"/>' % (
+                k, mg.fmt([0.2 if k else 0.0, 0, 0.5 if not k else 0.0]), k, jt[k], mg.fmt(ax),
+                mg.fmt(draw(mg.num(0, 1))), k, mg.fmt(draw(mg.num(0.3, 3, 1))), k,
+                mg.fmt([draw(mg.num(0.02, 0.18)), draw(mg.num(-0.05, 0.05)), draw(mg.num(-0.05, 0.05))])))
+    depth += 1
+  xml += '</body>' * depth + '<site name="s3" pos="0.1 0.3 0.6"/></worldbody>'
+  nt = draw(st.integers(2, 3))
+  tx = ''
+  for t in range(nt):
+    if draw(st.booleans()):
+      js = draw(st.lists(st.sampled_from([0, 1, 2]), min_size=1, max_size=3, unique=True))
+      tx += '<fixed name="t%d">%s</fixed>' % (t, ''.join('<joint joint="j%d" coef="%s"/>' % (
+          j, mg.fmt(draw(mg.num(-2, 2, 1)) or 1.0)) for j in js))
+    else:
+      a, b = draw(st.lists(st.sampled_from([0, 1, 2, 3]), min_size=2, max_size=2, unique=True))
+      tx += '<spatial name="t%d"><site site="s%d"/><site site="s%d"/></spatial>' % (t, a, b)
+  xml += '<tendon>%s</tendon>' % tx
+  acts = []
+
+  def gain():
+    return mg.fmt(draw(mg.num(0.5, 5, 1)) * draw(st.sampled_from([-1, 1])))
+  # tendon actuators: at least one on every sensed tendon
+  for t in range(nt):
+    for _ in range(draw(st.integers(1, 2))):
+      acts.append('<general tendon="t%d" gainprm="%s" gear="%s"/>' % (t, gain(), mg.fmt(draw(st.sampled_from([1.0, 1.0, 2.0, -0.5])))))
+  # non-tendon actuators whose target id coincides with a tendon id
+  for t in range(nt):
+    for kind in draw(st.lists(st.sampled_from(['joint', 'joint', 'site', 'jointinparent', 'body', 'slidercrank']),
+                              min_size=1, max_size=3, unique=True)):
+      if kind == 'joint':
+        acts.append('<general joint="j%d" gainprm="%s"/>' % (t, gain()))
+      elif kind == 'jointinparent':
+        acts.append('<general jointinparent="j%d" gainprm="%s"/>' % (t, gain()))
+      elif kind == 'site':
+        acts.append('<general site="s%d" gainprm="%s" gear="%s"/>' % (t, gain(), mg.fmt([draw(mg.num(-1, 1, 1)) for _ in range(6)])))
+      elif kind == 'body':
+        acts.append('<adhesion body="b%d" gain="%s" ctrlrange="0 2"/>' % (max(t - 1, 0), mg.fmt(draw(mg.num(0.5, 5, 1)))))
+      else:
+        acts.append('<general cranksite="s%d" slidersite="s%d" cranklength="0.3" gainprm="%s"/>' % (t, (t + 1) % 4, gain()))
+  # a few actuators on non-coinciding targets
+  if draw(st.booleans()):
+    acts.append('<motor joint="j2" gear="%s"/>' % gain())
+  acts = draw(st.permutations(acts))
+  xml += '<actuator>%s</actuator></mujoco>' % ''.join(a.replace('<general ', '<general name="a%d" ' % i, 1).replace(
+      '<adhesion ', '<adhesion name="a%d" ' % i, 1).replace('<motor ', '<motor name="a%d" ' % i, 1) for i, a in enumerate(acts))
+  cands = []
+  for t in range(nt):
+    cands += [('tendonactuatorfrc', dict(tendon='t%d' % t), 'tendon')] * 2
+  for j in range(3):
+    if jt[j] in ('hinge', 'slide'):
+      cands.append(('jointactuatorfrc', dict(joint='j%d' % j), 'joint'))
+  for i in range(len(acts)):
+    cands.append(('actuatorfrc', dict(actuator='a%d' % i), 'actuator'))
+  cands += [('tendonpos', dict(tendon='t0'), 'tendon'), ('clock', {}, 'none')]
+  n = draw(st.integers(nt + 1, min(9, len(cands))))
+  chosen = [('tendonactuatorfrc', dict(tendon='t%d' % t), 'tendon') for t in range(nt)]
+  chosen += draw(st.lists(st.sampled_from(cands), min_size=n - nt, max_size=n - nt))
+  chosen = draw(st.permutations(chosen))
+  sensors = []
+  for k, (el, a0, obj) in enumerate(chosen):
+    a = dict(name='sn%d' % k)
+    a.update(a0)
+    cutoff = 0.0
+    if draw(st.integers(0, 6)) == 0:
+      cutoff = draw(st.sampled_from([0.5, 3.0, 20.0]))
+      a['cutoff'] = mg.fmt(cutoff)
+    sensors.append(dict(xml='<%s%s/>' % (el, _attrs(a)), kind=el, obj=obj, ref='none', cutoff=cutoff, hist=None, attrs=a))
+  info = dict(base_xml=xml, sensors=sensors, family='tendonact', labels=['tendonact-family'])
+  return mg.GenModel(build_xml(xml, sensors), info)
